@@ -103,6 +103,8 @@ structure JwtSt where
   hist   : Hist
   clock  : Int
   cb     : String := "none"     -- the kind of UnauthorizedCallback installed
+  disc   : String := ""         -- the secret an overridden WithPrevSecret named
+  cbFirst : Bool := false       -- the callback option comes before the secret options
   opt    : String := "auto"     -- how the option list of Authorize spells the previous secret
 
 /-- how the wrapped (user) handler ends (`hk=`): an explicit status, a panic -/
@@ -152,11 +154,26 @@ def runJwtLine (r : Report) (sec : Nat) (st : JwtSt) (l : Line) : Report × JwtS
         let mPanic : Bool := if res.2.ran then outcomePanics hk else (st.cb = "panic-err" || st.cb = "panic-str")
         let mStatus : Nat :=
           if res.2.ran then outcomeStatus hk res.2.status
-          else if st.cb = "status" then 403 else if st.cb = "body" then 200 else res.2.status
+          else unauthorizedStatus (if st.cb = "status" then some 403 else if st.cb = "body" then some 200 else none)
         let m : AuthOut String := { ran := res.2.ran, status := mStatus, ctx := res.2.ctx }
         let mUcb : Nat := if !res.2.ran ∧ userCb then 1 else 0
         let r := { r with ops := r.ops + 1 }
         let r := r.addCover s!"jwt-options-{st.opt}{if st.prev = "" then "-no-previous" else "-previous"}"
+        -- the option list as the section spelled it, folded by the model: the previous secret in force must be the section's
+        let cbOpt : List AuthOption := if st.cb = "none" then [] else [.callback userCb]
+        let secretOpts : Option (List AuthOption) :=
+          if st.opt = "auto" then some (if st.prev = "" then [] else [.prevSecret st.prev])
+          else if st.opt = "none" then some []
+          else if st.opt = "prev" then some [.prevSecret st.prev]
+          else if st.opt = "prev-twice" then some [.prevSecret st.disc, .prevSecret st.prev]
+          else none
+        let r := match secretOpts with
+          | some so =>
+            let all := if st.cbFirst then cbOpt ++ so else so ++ cbOpt
+            if (authOptions all).prev ≠ st.prev ∨ (authOptions all).callback ≠ userCb then
+              r.mismatch sec l.idx s!"options in force: prev={(authOptions all).prev}" s!"section: prev={st.prev}"
+            else r
+          | none => r.mismatch sec l.idx "bad-option-kind" st.opt
         let r := r.addCover s!"jwt-callback-{st.cb}{if res.2.ran then "-not-called" else "-called"}"
         let r := if res.2.ran then r.addCover s!"jwt-handler-outcome-{if hk = "" then "ok" else hk}" else r
         let r := if kvNat o "ucb" 0 ≠ mUcb ∨ kvNat o "ucberr" 0 ≠ mUcb ∨ outPanic ≠ mPanic then
@@ -638,7 +655,7 @@ def runRestLine (r : Report) (sec : Nat) (cfg : RestCfg) (st : RestSt) (l : Line
               match bindRoute cfg.custom cfg.mw opts cfg.uses with
               | some chn =>
                 let run := runChain (gateVerdict (authVerdict authOut) (csGateVerdict opts.sigStrict cfg.cb gated covered)) chn
-                let mctx := if run.ran ∧ opts.jwt then authOut.ctx else []
+                let mctx := (restServe opts cfg.uses chn authOut (csGateVerdict opts.sigStrict cfg.cb gated covered)).ctx
                 let mucb := if cfg.cb ∧ run.saw.contains authorizeName ∧ !authOut.ran then 1 else 0
                 let mscb := if cfg.cb ∧ run.saw.contains contentSecurityName ∧ gated ∧ !covered then 1 else 0
                 (run, mctx, mucb, mscb)
@@ -648,7 +665,8 @@ def runRestLine (r : Report) (sec : Nat) (cfg : RestCfg) (st : RestSt) (l : Line
           let mseen := if run.ran then sentBody else []
           let show_ (ran : Bool) (status : Nat) (ctx : List (String × String)) (cm use ucb scb : Nat) (seen : Bytes) :=
             s!"ran={if ran then 1 else 0} status={status} ctx={showPairs ctx} cm={cm} use={use} ucb={ucb} scb={scb} seen={toHex seen}"
-          let mshow := show_ run.ran run.status model.2.1 (count "cm" run.saw) (count "use" run.saw) model.2.2.1 model.2.2.2 mseen
+          let musesRan := (run.saw.filter fun n => cfg.uses.contains n).length     -- = restServe's usesRan
+          let mshow := show_ run.ran run.status model.2.1 (count "cm" run.saw) musesRan model.2.2.1 model.2.2.2 mseen
           let oshow := show_ ran status ctx cm use ucb scb seen
           let r := if mshow ≠ oshow then r.mismatch sec l.idx mshow oshow else r
           -- the group's OWN decrypters (model: `loadDecrypters` over the group's key list) against the harness' fact
@@ -737,7 +755,8 @@ def runSection (r : Report) (s : Section) : Report :=
     | some secret, some prev, some t0 =>
       (s.lines.foldl (fun (acc : Report × JwtSt) l => runJwtLine acc.1 s.idx acc.2 l)
         (r, { secret := secret, prev := prev, hist := { resetTime := t0 }, clock := t0, cb := kvStr s.cfg "cb" "none",
-              opt := kvStr s.cfg "opt" "auto" })).1
+              opt := kvStr s.cfg "opt" "auto", disc := ((kv? s.cfg "disc").bind unhexStr).getD "",
+              cbFirst := kvStr s.cfg "cbpos" "last" = "first" })).1
     | _, _, _ => r.mismatch s.idx 0 "bad-section" (joinSp s.cfg)
   | some "cs" =>
     -- ctor=plain: ContentSecurityHandler(decrypters, tolerance, strict) = the limit is the package's maxBytes
